@@ -101,6 +101,22 @@ PROPS = {
              "integer print/parse are Go library semantics, compared on every case, not proved.",
         technique="Lean 4 theorems over an executable model + differential correspondence with the Go code",
     ),
+    "C11": dict(
+        modules=["SpatialId.Props.C11"],
+        families=[("quadkey", 30000, 200000), ("quadkeyExh", 1, 1), ("qv", 4000, 20000), ("qvrt", 2000, 10000)],
+        trusted_base=COMMON_TB + ["strconv.FormatInt(n, 4) = base-4 digits, most significant first, no leading zeros"],
+        assumptions=["quadkey zoom 1..31 (keys below 2^62)"],
+        claim="Theorems (Props/C11.lean): the encoder's two bit loops compute sum (bit_i x + 2 bit_i y) 4^i (qkEnc_eq), so base-4 "
+              "digit i interleaves bit i of y and x (enc_bits) and 0 <= key < 4^zoom (enc_lt); the decoder's digit walk over "
+              "FormatInt(key,4) is the arithmetic inverse also when leading zero digits are dropped (qkDec_eq); "
+              "dec(enc(x,y)) = (x,y) and enc(dec(k)) = k on the whole domain (one-to-one); zoom errors and no panics for the "
+              "exported conversions. The round trip through the exported conversions (same zooms: identity; different zooms: "
+              "the C03 zoom change per axis), cross-group de-duplication and echo of the request parameters are tied by "
+              "exact comparison on the implementation (qv, qvrt), exhaustively for zooms 1..5 (quadkeyExh).",
+        note="Lean kernel + propext/Classical.choice/Quot.sound; model tied by sampling; list-level round trip is checked by "
+             "correspondence against the C03 model rather than proved as a theorem.",
+        technique="Lean 4 theorems over an executable model + differential correspondence with the Go code",
+    ),
     "C12": dict(
         modules=["SpatialId.Props.C12"],
         families=[("altkey", 40000, 300000), ("altkeyLattice", 1, 1)],
@@ -129,6 +145,22 @@ PROPS = {
               "0..35. Tied to the Go functions by exact set comparison on generated tile lists (overlapping ranges, "
               "bad tiles anywhere in the list).",
         note="Lean kernel + propext/Classical.choice/Quot.sound; model tied by sampling; defect D8 repaired by a fix: commit.",
+        technique="Lean 4 theorems over an executable model + differential correspondence with the Go code",
+    ),
+    "C20": dict(
+        modules=["SpatialId.Props.C20"],
+        families=[("sets", 30000, 200000), ("ashift", 20000, 200000), ("combLattice", 1, 1)],
+        trusted_base=COMMON_TB,
+        assumptions=["|index * 2^shift| < 2^62 (no int64 overflow), |shift| < 63"],
+        claim="Theorems (Props/C20.lean): union/intersection/difference/unique/include are the set operations on the elements "
+              "(membership iff, Nodup where documented, order of the filtered slice kept); Max/Min return an element bounding "
+              "all others and reject the empty slice; CalculateArithmeticShift i s = floor(i * 2^s) over Q for either sign of "
+              "both arguments; Combinations visits exactly the k-sublists of 0..n-1 once each in lexicographic order for the "
+              "whole table 0 <= k <= n <= 12 (decide +kernel; chooseK proved sound and complete for sublists in general). "
+              "Vector/matrix/quaternion identities: see level_note.",
+        note="Lean kernel + propext/Classical.choice/Quot.sound; model tied by exact comparison. The 3-D vector, line, matrix "
+             "and quaternion helpers are binary64 code: their identities hold only up to rounding and are covered in a later "
+             "round (F64 model); they are not yet claimed by this check.",
         technique="Lean 4 theorems over an executable model + differential correspondence with the Go code",
     ),
 }
